@@ -131,4 +131,9 @@ class MoreInfoFromHeaderMixin:
         if referrer is None:
             return None
 
-        return URL(url=referrer)
+        try:
+            url = URL(url=referrer)
+            url.port  # not every string urlsplit() accepts has a readable port
+        except ValueError:
+            return None
+        return url
